@@ -504,4 +504,649 @@ Section Dup.
     destruct cap_init_eq as [-> Hi]. rewrite (cap_run_eq fuel _ Hi). exact Hfin.
   Qed.
   End Cap.
+
+  (** * Every fault schedule, any repeat counts
+
+      The general invariant, the termination of every schedule and the recovery once the faults have
+      stopped ([CosimLive], last part) carried over to duplicate-packets mode: the sender emits every
+      DATA [s_rep] times, the receiver every ACK [r_rep] times, the channels lose, repeat and reorder
+      at will.  The invariant [G], the descent and the recovery argument are the same; a receiver
+      step now puts up to [r_rep] datagrams into the ACK channel, so a DATA datagram in flight weighs
+      [r_rep + 1] in the measure. *)
+  Section AnyDup.
+  Variables (f_sr f_rs : list (N * fault)).
+  Local Notation stepF := (pair_step sc rc f_sr f_rs).
+  Local Notation runF := (pair_run sc rc f_sr f_rs).
+  Local Notation G := (CosimLive.G sc rc F).
+  Local Notation RG := (CosimLive.RG sc rc F).
+  Local Notation dat_ok := (CosimLive.dat_ok sc F).
+  Local Notation Pend := (CosimLive.Pend sc F).
+  Local Notation LiveOK := (CosimLive.LiveOK sc F).
+  Local Notation CL := (CosimLive.CL f_sr f_rs).
+  Local Notation pend := (CosimLive.pend f_sr f_rs).
+  Local Notation ended := (CosimLive.ended F).
+  Local Notation Final := (CosimLive.Final F).
+  Local Notation datas := (CosimLive.datas sc F).
+  Local Notation SS_len := (CosimLive.SS_len sc rc F Hblk Hws Htmo).
+  Local Notation SS_retry := (CosimLive.SS_retry sc F).
+  Local Notation RG_idle_SS := (CosimLive.RG_idle_SS sc rc F).
+  Local Notation RG_done := (CosimLive.RG_done sc rc F).
+  Local Notation RG_top := (CosimLive.RG_top sc rc F Hblk Hws Htmo).
+  Local Notation step_recv_gen := (CosimLive.step_recv_gen sc rc f_sr f_rs).
+  Local Notation step_send_gen := (CosimLive.step_send_gen sc rc f_sr f_rs).
+  Local Notation step_tmo_gen := (CosimLive.step_tmo_gen sc rc f_sr f_rs).
+  Local Notation send_stale_gen := (CosimLive.send_stale_gen sc rc F Hwf Hblk Hws Htmo).
+  Local Notation send_give_up := (CosimLive.send_give_up sc F).
+  Local Notation run_add := (CosimLive.run_add sc rc f_sr f_rs).
+  Local Notation sender_left_step := (CosimLive.sender_left_step sc rc f_sr f_rs).
+  Local Notation chan_puts_weave_b := (CosimLive.chan_puts_weave_b sc rc Hblk Hws Htmo).
+  Local Notation ch_n_puts := (CosimLive.ch_n_puts sc rc Hblk Hws Htmo).
+  Local Notation clean_from_mono := (CosimLive.clean_from_mono sc rc Hblk Hws Htmo).
+  Local Notation in_flight_weave_length := (CosimLive.in_flight_weave_length sc rc Hblk Hws Htmo).
+  Local Notation pending_mono := (CosimLive.pending_mono sc rc Hblk Hws Htmo).
+  Local Notation pending_cases := (CosimLive.pending_cases sc rc Hblk Hws Htmo).
+
+  Lemma chan_puts_weaveF : forall fs q h n ds, clean_from fs n ->
+    chan_puts fs (mk_chan q h n) ds =
+      mk_chan (q ++ weave h ds) (match ds with [] => h | _ => None end) (n + lenN ds).
+  Proof. intros fs q h n ds Hc. apply chan_puts_weave_b. intros i Hi. apply Hc. lia. Qed.
+
+  Lemma In_datasR : forall m k0 x, In x (datasR k0 m) -> exists k, x = data_dgram blk F k /\ k0 <= k < k0 + N.of_nat m.
+  Proof.
+    intros m. induction m as [|m IH]; intros k0 x H; cbn [datasR] in H; [contradiction|].
+    apply in_app_or in H. destruct H as [H|H].
+    - apply repeat_spec in H. exists k0. split; [exact H|lia].
+    - destruct (IH _ _ H) as (k & -> & Hk). exists k. split; [reflexivity|lia].
+  Qed.
+
+  Lemma datasR_sub : forall m k0, subseq (datas k0 m) (datasR k0 m).
+  Proof.
+    intros m. induction m as [|m IH]; intros k0; cbn [CosimLive.datas datasR]; [constructor|].
+    destruct rsn as [|r] eqn:Er; [lia|]. cbn [repeat app]. apply subseq_take. apply subseq_app_l. apply IH.
+  Qed.
+
+  Lemma datasR_nonnil : forall m k0, (1 <= m)%nat -> datasR k0 m <> [].
+  Proof. intros m k0 Hm. destruct m as [|m]; [lia|]. cbn [datasR]. destruct rsn as [|r] eqn:Er; [lia|]. discriminate. Qed.
+
+  Lemma send_retxR : forall st a r, SS st a r -> r + 1 < max_retries ->
+    exists st' out, send_step sc st (EvFail (s_tmo sc)) = (st', out) /\ SS st' a (r + 1) /\ wlen st' = wlen st /\
+      sent_bytes out = datasR (a + 1) (N.to_nat (wlen st)).
+  Proof.
+    intros st a r Hss Hr. pose proof (SS_windowR _ _ _ Hss) as Hwin.
+    destruct Hss as (Hi & Hp & Ht & Habs & Hsince & Hretry).
+    rewrite step_failed_attempt by (auto; exact I). cbn [ev_delay].
+    destruct (N.eqb_spec (s_retry st + 1) max_retries) as [Eq|Ne]; [lia|].
+    pose proof Hi as [Hc [Hq Hn]].
+    rewrite inner_top_firesR.
+    - eexists. eexists. split; [reflexivity|]. cbn [s_abs s_w]. split; [|split; [reflexivity|exact Hwin]].
+      unfold CosimLive.SS. cbn [s_phase s_abs s_since s_retry]. split.
+      + split; [|split; [intros X; discriminate|intros _; apply Hn; exact Hp]].
+        eapply SCore_ext; [..|exact Hc]; try reflexivity. cbn [s_retry]. lia.
+      + split; [reflexivity|]. split; [exact Ht|]. split; [exact Habs|]. split; [reflexivity|lia].
+    - eapply SCore_ext; [..|exact Hc]; try reflexivity. cbn [s_retry]. lia.
+    - cbn [s_since]. lia.
+  Qed.
+
+  Lemma In_weave_repeat : forall x h n, (1 <= n)%nat -> In x (weave h (repeat x n)).
+  Proof. intros x h n Hn. destruct n as [|n]; [lia|]. cbn [repeat]. destruct h; cbn [weave]; left; reflexivity. Qed.
+
+  (** A DATA datagram in flight weighs [r_rep + 1]: the receiver may answer it with [r_rep] ACKs. *)
+  Definition msrR (p : pair_state) : nat :=
+    ((rrn + 1) * length (in_flight (p_sr p)) + length (in_flight (p_rs p)))%nat.
+
+  Definition lexdecR (p : pair_state) (a r0 : N) (p' : pair_state) (a' r0' : N) : Prop :=
+    (pend p' < pend p)%nat \/
+    ((pend p' <= pend p)%nat /\ (a < a' \/ (a' = a /\ (r0 < r0' \/ (r0' = r0 /\ (msrR p' < msrR p)%nat))))).
+
+  (** What the receiver makes of the datagram at the head of its queue. *)
+  Lemma G_recv : forall s r d q h n rs a r0 c j, nb <= 65535 ->
+    G (mk_pair s r (mk_chan (d :: q) h n) rs) a r0 c j -> r_phase r = RRun ->
+    exists r' acks c' j',
+      stepF (mk_pair s r (mk_chan (d :: q) h n) rs) = Some (mk_pair s r' (mk_chan q h n) (chan_puts f_rs rs acks)) /\
+      G (mk_pair s r' (mk_chan q h n) (chan_puts f_rs rs acks)) a r0 c' j' /\
+      ((d = data_dgram blk F (c + 1) /\ c = a + j /\ c' = c + 1 /\
+          ((j + 1 < wlen s /\ acks = [] /\ j' = j + 1 /\ r_phase r' = RRun) \/
+           (j + 1 = wlen s /\ acks = repeat (ack_dgram (c + 1)) rrn /\ j' = 0)))
+       \/ (d <> data_dgram blk F (c + 1) /\ c' = c /\ j' = j /\ r_phase r' = RRun /\
+           acks = if j =? 0 then repeat (ack_dgram c) rrn else [])).
+  Proof.
+    intros s r d q h n rs a r0 c j Hn (Hss & Hrg & Hsr & Hrs) Hp. cbn [p_s p_r p_sr p_rs] in *.
+    pose proof (SS_len _ _ _ Hss) as (Ha & Hlen & Hpos). set (wl := wlen s) in *.
+    destruct (in_flight_tail _ _ _ _ _ Hsr) as [(k & -> & Hk1 & Hk2) Hsr'].
+    rewrite step_recv_gen by exact Hp.
+    destruct Hrg as [[(hist & Hrs0) Hrel]|(Hd & _)]; [|congruence].
+    destruct (N.eq_dec k (c + 1)) as [->|Hne].
+    - (* the next block *)
+      assert (Hc : c = a + j /\ j < wl) by (destruct Hrel as [?|(? & ? & ?)]; [assumption|lia]).
+      destruct Hc as [Hc Hj].
+      destruct (recv_in_seqR hist r c j Hrs0 ltac:(lia)) as (r' & out & E & Hres). rewrite E. cbn [fst snd].
+      assert (Hflush : (c + 1 =? nb) || (j + 1 =? ws) = (j + 1 =? wl)) by lia.
+      rewrite Hflush in Hres. destruct (N.eqb_spec (j + 1) wl) as [Hfl|Hnf].
+      + destruct Hres as [Hout Hst]. exists r', (repeat (ack_dgram (c + 1)) rrn), (c + 1), 0. rewrite Hout.
+        split; [reflexivity|]. split.
+        * unfold G. cbn [p_s p_r p_sr p_rs]. fold wl. split; [exact Hss|]. split.
+          -- unfold RG. destruct (N.eqb_spec (c + 1) nb) as [Hl|Hnl].
+             ++ right. destruct Hst as [H1 H2]. repeat split; try assumption; lia.
+             ++ left. split; [eexists; exact Hst|]. right. lia.
+          -- split; [exact Hsr'|]. apply Forall_in_flight_puts.
+             ++ eapply Forall_impl; [|exact Hrs]. intros x (c' & -> & Hx). exists c'. split; [reflexivity|]. lia.
+             ++ rewrite Forall_forall. intros x Hx. apply repeat_spec in Hx. subst x.
+                exists (c + 1). split; [reflexivity|]. right. lia.
+        * left. repeat split; try reflexivity; try assumption. right. repeat split; try reflexivity. exact Hfl.
+      + destruct Hres as [-> Hst]. exists r', [], (c + 1), (j + 1).
+        cbn [acked_bytes sent_bytes map filter]. split; [reflexivity|]. split.
+        * unfold G. cbn [p_s p_r p_sr p_rs]. fold wl. split; [exact Hss|]. split.
+          -- left. split; [eexists; exact Hst|]. left. lia.
+          -- split; [exact Hsr'|]. change (chan_puts f_rs rs []) with rs.
+             eapply Forall_impl; [|exact Hrs]. intros x (c' & -> & Hx). exists c'. split; [reflexivity|]. lia.
+        * left. repeat split; try reflexivity; try assumption. left. repeat split; try reflexivity; try lia. apply Hst.
+    - (* any other block *)
+      destruct (recv_out_seqR hist r c j k Hrs0 ltac:(lia)) as (r' & out & E & Hst & Hout). rewrite E. cbn [fst snd].
+      exists r', (if j =? 0 then repeat (ack_dgram c) rrn else []), c, j. rewrite Hout.
+      split; [reflexivity|]. split.
+      + unfold G. cbn [p_s p_r p_sr p_rs]. fold wl. split; [exact Hss|]. split.
+        * left. split; [eexists; exact Hst|exact Hrel].
+        * split; [exact Hsr'|]. apply Forall_in_flight_puts; [exact Hrs|].
+          destruct (N.eqb_spec j 0) as [Hz|_]; [|constructor]. rewrite Forall_forall. intros x Hx. apply repeat_spec in Hx. subst x.
+          exists c. split; [reflexivity|]. destruct Hrel as [?|(? & ? & ?)]; [left; lia|right; lia].
+      + right. split.
+        * intros Heq. pose proof (receive_data k 0) as R1. pose proof (receive_data (c + 1) 0) as R2.
+          rewrite Heq, R2 in R1. injection R1 as R1 _. lia.
+        * repeat split; try reflexivity. apply Hst.
+  Qed.
+
+  (** What the sender makes of the datagram at the head of its queue. *)
+  Lemma G_send : forall s r sr d q h n a r0 c j, nb <= 65535 ->
+    G (mk_pair s r sr (mk_chan (d :: q) h n)) a r0 c j -> recv_idle r sr ->
+    exists s' burst,
+      stepF (mk_pair s r sr (mk_chan (d :: q) h n)) = Some (mk_pair s' r (chan_puts f_sr sr burst) (mk_chan q h n)) /\
+      ((d <> ack_dgram (a + wlen s) /\ burst = [] /\ wlen s' = wlen s /\
+        G (mk_pair s' r sr (mk_chan q h n)) a r0 c j)
+       \/ (d = ack_dgram (a + wlen s) /\ c = a + wlen s /\ j = 0 /\
+           ((c = nb /\ burst = [] /\ s_phase s' = SDone OutOk) \/
+            (c < nb /\ burst = datasR (c + 1) (N.to_nat (wlen s')) /\
+             G (mk_pair s' r (chan_puts f_sr sr burst) (mk_chan q h n)) c 0 c 0)))).
+  Proof.
+    intros s r sr d q h n a r0 c j Hn (Hss & Hrg & Hsr & Hrs) Hidle. cbn [p_s p_r p_sr p_rs] in *.
+    pose proof (SS_len _ _ _ Hss) as (Ha & Hlen & Hpos). set (wl := wlen s) in *.
+    destruct (in_flight_tail _ _ _ _ _ Hrs) as [(c' & -> & Hc') Hrs'].
+    rewrite step_send_gen by (try exact Hidle; apply Hss).
+    destruct Hc' as [Hle|[-> Hctop]].
+    - (* an old ACK *)
+      destruct (send_stale_gen s a r0 c' Hss Hle Hn) as (s' & E & Hss' & Hl'). rewrite E. cbn [fst snd sent_bytes map filter].
+      exists s', []. split; [reflexivity|]. left. split.
+      + intros Heq. pose proof (receive_ack_dgram c' 0) as R1. pose proof (receive_ack_dgram (a + wl) 0) as R2.
+        rewrite Heq, R2 in R1. injection R1 as R1. lia.
+      + split; [reflexivity|]. split; [exact Hl'|].
+        unfold G. cbn [p_s p_r p_sr p_rs]. rewrite Hl'. fold wl.
+        split; [exact Hss'|]. split; [exact Hrg|]. split; [exact Hsr|exact Hrs'].
+    - (* the ACK of the whole window *)
+      assert (Hj : j = 0).
+      { destruct Hrg as [[_ [(? & ?)|(? & ? & ?)]]|(_ & _ & _ & _ & ?)]; [lia|assumption|assumption]. }
+      destruct (send_ack_windowR s a r0 Hss) as (s' & out & E & Hres). fold wl in E, Hres. rewrite E. cbn [fst snd].
+      exists s', (sent_bytes out). split; [reflexivity|]. right. split; [reflexivity|]. split; [exact Hctop|]. split; [exact Hj|].
+      subst c j.
+      destruct (N.eqb_spec (a + wl) nb) as [Hlast|Hnot].
+      + destruct Hres as [-> Hd]. left. split; [lia|]. split; [reflexivity|exact Hd].
+      + destruct Hres as [Hss' Hout]. right. split; [lia|]. rewrite Hout. split; [reflexivity|].
+        pose proof (SS_len _ _ _ Hss') as (Ha' & Hlen' & Hpos').
+        unfold G. cbn [p_s p_r p_sr p_rs]. split; [exact Hss'|]. split.
+        * destruct Hrg as [[Hh [(? & ?)|(_ & _ & Hlt)]]|(_ & _ & ? & _)]; [lia| |lia].
+          left. split; [exact Hh|]. left. lia.
+        * split.
+          -- apply Forall_in_flight_puts.
+             ++ eapply Forall_impl; [|exact Hsr]. intros x (k & -> & Hk). exists k. split; [reflexivity|]. lia.
+             ++ rewrite Forall_forall. intros x Hx. destruct (In_datasR _ _ _ Hx) as (k & -> & Hk).
+                exists k. split; [reflexivity|]. lia.
+          -- eapply Forall_impl; [|exact Hrs']. intros x (c'' & -> & Hx). exists c''. split; [reflexivity|]. left. lia.
+  Qed.
+
+  (** The sender's time-out. *)
+  Lemma G_tmo : forall s r sr h n a r0 c j,
+    G (mk_pair s r sr (mk_chan [] h n)) a r0 c j -> recv_idle r sr ->
+    (r0 + 1 < max_retries /\
+     exists s', stepF (mk_pair s r sr (mk_chan [] h n)) =
+                  Some (mk_pair s' r (chan_puts f_sr sr (datasR (a + 1) (N.to_nat (wlen s)))) (mk_chan [] h n)) /\
+                wlen s' = wlen s /\
+                G (mk_pair s' r (chan_puts f_sr sr (datasR (a + 1) (N.to_nat (wlen s)))) (mk_chan [] h n)) a (r0 + 1) c j)
+    \/ (r0 + 1 = max_retries /\
+        exists s', stepF (mk_pair s r sr (mk_chan [] h n)) = Some (mk_pair s' r sr (mk_chan [] h n)) /\
+                   s_phase s' = SDone OutTimeout).
+  Proof.
+    intros s r sr h n a r0 c j (Hss & Hrg & Hsr & Hrs) Hidle. cbn [p_s p_r p_sr p_rs] in *.
+    pose proof (SS_retry _ _ _ Hss) as Hr0.
+    rewrite step_tmo_gen by (try exact Hidle; apply Hss).
+    destruct (N.eq_dec (r0 + 1) max_retries) as [Heq|Hne].
+    - right. split; [exact Heq|]. destruct (send_give_up s a r0 Hss Heq) as (s' & E & Hd). rewrite E. cbn [fst snd sent_bytes map filter].
+      exists s'. split; [reflexivity|exact Hd].
+    - left. split; [lia|]. destruct (send_retxR s a r0 Hss ltac:(lia)) as (s' & out & E & Hss' & Hl' & Hout).
+      rewrite E. cbn [fst snd]. rewrite Hout. exists s'. split; [reflexivity|]. split; [exact Hl'|].
+      unfold G. cbn [p_s p_r p_sr p_rs]. rewrite Hl'. split; [exact Hss'|]. split; [exact Hrg|]. split; [|exact Hrs].
+      apply Forall_in_flight_puts; [exact Hsr|]. rewrite Forall_forall. intros x Hx.
+      destruct (In_datasR _ _ _ Hx) as (k & -> & Hk). exists k. split; [reflexivity|]. lia.
+  Qed.
+
+  Lemma init_emitR : exists s0,
+    pair_init sc rc f_sr F = mk_pair s0 (recv_init rc) (chan_puts f_sr chan_empty (datasR (0 + 1) (N.to_nat (wlen s0)))) chan_empty /\ SS s0 0 0.
+  Proof.
+    unfold pair_init. destruct (send_init sc F) as [s0 out0] eqn:E0. unfold send_init in E0. rewrite Hck in E0.
+    set (st0 := mk_sstate 1 (window_new (s_ws sc) (s_blk sc) (file_for_read F)) true 0 0 0 SInWindow 1) in *.
+    assert (Hc0 : SCore sc F st0).
+    { unfold SCore, st0. cbn [s_w s_bn s_abs s_filled s_retry window_new w_elems w_size w_chunk w_file
+                              file_for_read f_mode f_rest length chunks_from].
+      rewrite lenN_nil. destruct Hwf as (Hb & Hw1 & Hw2). pose proof (nblk_pos (s_blk sc) F).
+      repeat split; try reflexivity; try lia. }
+    destruct (outer_top_outR st0 s0 out0 Hc0) as [Hss Hout]; try exact E0.
+    - intros _. unfold st0. cbn [s_w window_new w_elems]. rewrite lenN_nil. destruct Hwf as (_ & ? & _). lia.
+    - discriminate.
+    - change (s_abs st0 - 1) with 0 in Hss. exists s0. split; [|exact Hss].
+      rewrite Hout, (SS_windowR _ _ _ Hss). reflexivity.
+  Qed.
+
+  (** [G] holds initially, whatever happens to the first window. *)
+  Lemma G_init : exists a r0 c j, G (pair_init sc rc f_sr F) a r0 c j.
+  Proof.
+    destruct init_emitR as (s0 & -> & Hss). pose proof (SS_len _ _ _ Hss) as (Ha & Hlen & Hpos).
+    exists 0, 0, 0, 0. unfold CosimLive.G. cbn [p_s p_r p_sr p_rs].
+    split; [exact Hss|]. split.
+    - left. split; [exists []; exact (recv_init_RS sc rc F Hwf Hblk Hws)|]. left. lia.
+    - split; [|constructor]. apply Forall_in_flight_puts; [constructor|]. rewrite Forall_forall. intros x Hx.
+      destruct (In_datasR _ _ _ Hx) as (k & -> & Hk). exists k. split; [reflexivity|]. lia.
+  Qed.
+
+  (** One step from a [G] state: [G] again, or the sender has ended. *)
+  Lemma G_step : forall p p' a r0 c j, nb <= 65535 -> G p a r0 c j -> stepF p = Some p' ->
+    (exists a' r0' c' j', G p' a' r0' c' j') \/ sender_left p'.
+  Proof.
+    intros [s r [q1 h1 n1] [q2 h2 n2]] p' a r0 c j Hn Hg Hstep.
+    pose proof Hg as (Hss & Hrg & _). cbn [p_s p_r] in Hss, Hrg.
+    destruct (RG_idle_SS _ _ _ _ _ Hrg) as [Hrun|Hdone].
+    - destruct q1 as [|d q1].
+      + assert (Hidle : recv_idle r (mk_chan [] h1 n1)) by (left; reflexivity).
+        destruct q2 as [|d q2].
+        * destruct (G_tmo _ _ _ _ _ _ _ _ _ Hg Hidle) as [(_ & s' & E & _ & Hg')|(_ & s' & E & Hd)];
+            rewrite E in Hstep; injection Hstep as <-.
+          -- left. eauto.
+          -- right. unfold sender_left, s_running. cbn [p_s]. rewrite Hd. reflexivity.
+        * destruct (G_send _ _ _ _ _ _ _ _ _ _ _ Hn Hg Hidle) as (s' & burst & E & Hres).
+          rewrite E in Hstep. injection Hstep as <-.
+          destruct Hres as [(_ & -> & _ & Hg')|(_ & _ & _ & [(_ & _ & Hd)|(_ & _ & Hg')])].
+          -- left. eauto.
+          -- right. unfold sender_left, s_running. cbn [p_s]. rewrite Hd. reflexivity.
+          -- left. eauto.
+      + assert (Hp : r_phase r = RRun) by (unfold r_running in Hrun; destruct (r_phase r); [reflexivity|discriminate]).
+        destruct (G_recv _ _ _ _ _ _ _ _ _ _ _ Hn Hg Hp) as (r' & acks & c' & j' & E & Hg' & _).
+        rewrite E in Hstep. injection Hstep as <-. left. eauto.
+    - assert (Hidle : recv_idle r (mk_chan q1 h1 n1)) by (right; unfold r_running; rewrite Hdone; reflexivity).
+      destruct q2 as [|d q2].
+      + destruct (G_tmo _ _ _ _ _ _ _ _ _ Hg Hidle) as [(_ & s' & E & _ & Hg')|(_ & s' & E & Hd)];
+          rewrite E in Hstep; injection Hstep as <-.
+        * left. eauto.
+        * right. unfold sender_left, s_running. cbn [p_s]. rewrite Hd. reflexivity.
+      + destruct (G_send _ _ _ _ _ _ _ _ _ _ _ Hn Hg Hidle) as (s' & burst & E & Hres).
+        rewrite E in Hstep. injection Hstep as <-.
+        destruct Hres as [(_ & -> & _ & Hg')|(_ & _ & _ & [(_ & _ & Hd)|(_ & _ & Hg')])].
+        * left. eauto.
+        * right. unfold sender_left, s_running. cbn [p_s]. rewrite Hd. reflexivity.
+        * left. eauto.
+  Qed.
+
+  (** [G] is an invariant of every run, under every fault schedule, until the sender ends. *)
+  Lemma G_run : forall fuel p, nb <= 65535 -> (exists a r0 c j, G p a r0 c j) \/ sender_left p ->
+    (exists a r0 c j, G (runF fuel p) a r0 c j) \/ sender_left (runF fuel p).
+  Proof.
+    intros fuel. induction fuel as [|fuel IH]; intros p Hn H; cbn [pair_run]; [exact H|].
+    destruct (stepF p) as [p'|] eqn:E; [|exact H]. apply IH; [exact Hn|].
+    destruct H as [(a & r0 & c & j & Hg)|Hl].
+    - exact (G_step _ _ _ _ _ _ Hn Hg E).
+    - right. exact (sender_left_step _ _ Hl E).
+  Qed.
+
+  (** One step with the faults over, away from quiescence: the transfer is finished, or the
+      sender has moved to the next window, or something in flight has been consumed. *)
+  Lemma clean_step : forall p a r0 c j, nb <= 65535 -> G p a r0 c j -> CL p -> LiveOK p -> ~ quiescent p ->
+    exists p', stepF p = Some p' /\ CL p' /\
+      (Final p'
+       \/ (exists a', a < a' /\ G p' a' 0 a' 0 /\ LiveOK p')
+       \/ (exists c' j', G p' a r0 c' j' /\ LiveOK p' /\ (msrR p' < msrR p)%nat /\ wlen (p_s p') = wlen (p_s p) /\
+             (Pend p (a + wlen (p_s p)) c -> Pend p' (a + wlen (p_s p)) c'))).
+  Proof.
+    intros [s r [q1 h1 n1] [q2 h2 n2]] a r0 c j Hn Hg [Hc1 Hc2] Hlive Hnq.
+    cbn [p_s p_r p_sr p_rs ch_n] in *.
+    pose proof Hg as (Hss & Hrg & Hsr & Hrs). cbn [p_s p_r p_sr p_rs] in Hss, Hrg, Hsr, Hrs.
+    pose proof (SS_len _ _ _ Hss) as (Ha & Hlen & Hpos). set (wl := wlen s) in *. set (top := a + wl) in *.
+    assert (Hcase : (exists d q, q1 = d :: q /\ r_phase r = RRun) \/
+                    (recv_idle r (mk_chan q1 h1 n1) /\ exists d q, q2 = d :: q)).
+    { destruct q1 as [|d q1].
+      - right. split; [left; reflexivity|]. destruct q2 as [|d q2]; [|eauto].
+        exfalso. apply Hnq. split; [reflexivity|left; reflexivity].
+      - destruct (r_phase r) eqn:Hp; [left; eauto|].
+        right. split; [right; unfold r_running; rewrite Hp; reflexivity|]. destruct q2 as [|d2 q2]; [|eauto].
+        exfalso. apply Hnq. split; [reflexivity|right; unfold r_running; cbn [p_r]; rewrite Hp; reflexivity]. }
+    destruct Hcase as [(d & q & -> & Hp)|(Hidle & d & q & ->)].
+    - (* the receiver takes a datagram *)
+      destruct (G_recv _ _ _ _ _ _ _ _ _ _ _ Hn Hg Hp) as (r' & acks & c' & j' & E & Hg' & Hdesc).
+      rewrite chan_puts_weaveF in E, Hg' by exact Hc2.
+      eexists. split; [exact E|]. split.
+      { split; cbn [p_sr p_rs ch_n]; [exact Hc1|]. eapply clean_from_mono; [|exact Hc2]. lia. }
+      right. right. exists c', j'. split; [exact Hg'|].
+      assert (Hacks : (length acks <= rrn)%nat).
+      { destruct Hdesc as [(_ & _ & _ & [(_ & -> & _)|(_ & -> & _)])|(_ & _ & _ & _ & ->)]; rewrite ?repeat_length; cbn [length]; try lia.
+        destruct (j =? 0); rewrite ?repeat_length; cbn [length]; lia. }
+      split; [|split; [|split; [reflexivity|]]].
+      + (* the receiver's last ACK is queued *)
+        intros Hd. cbn [p_r p_rs ch_q] in *.
+        destruct Hdesc as [(_ & Hcj & -> & [(_ & _ & _ & Hrun)|(Hfl & -> & _)])|(_ & _ & _ & Hrun & _)]; try congruence.
+        destruct Hg' as (_ & Hrg' & _). cbn [p_r] in Hrg'.
+        destruct (RG_done _ _ _ _ _ Hrg' Hd) as (_ & Hnb & _). rewrite Hnb.
+        apply in_or_app. right. apply In_weave_repeat. lia.
+      + unfold msrR. cbn [p_sr p_rs]. rewrite in_flight_weave_length. unfold in_flight. cbn [ch_q ch_held app length].
+        rewrite Nat.mul_succ_r. lia.
+      + (* what was pending still is *)
+        fold wl. fold top. intros [P1 P2]. unfold Pend in *. cbn [p_s p_r p_sr p_rs ch_q] in *.
+        destruct Hdesc as [(-> & Hcj & -> & [(Hnf & -> & -> & Hrun)|(Hfl & -> & ->)])|(Hne & -> & -> & Hrun & ->)].
+        * split; [|intros Heq; unfold top in Heq; lia]. intros Hlt. specialize (P1 ltac:(lia)).
+          replace (N.to_nat (top - c)) with (S (N.to_nat (top - (c + 1)))) in P1 by lia. cbn [CosimLive.datas] in P1.
+          apply subseq_pop in P1. apply P1.
+        * split; [intros Hlt; unfold top in Hlt; lia|]. intros _. left. apply in_or_app. right.
+          replace top with (c + 1) by (unfold top; lia). apply In_weave_repeat. lia.
+        * split.
+          -- intros Hlt. specialize (P1 Hlt).
+             replace (N.to_nat (top - c)) with (S (N.to_nat (top - (c + 1)))) in * by lia. cbn [CosimLive.datas] in *.
+             apply subseq_pop in P1. apply P1. exact Hne.
+          -- intros Heq. destruct (P2 Heq) as [Hin|_]; [left; apply in_or_app; left; exact Hin|].
+             left. apply in_or_app. right.
+             destruct (RG_top _ _ _ _ _ Hrg Hpos Heq) as (-> & _). cbn [N.eqb]. rewrite Heq.
+             apply In_weave_repeat. lia.
+    - (* the sender takes a datagram *)
+      destruct (G_send _ _ _ _ _ _ _ _ _ _ _ Hn Hg Hidle) as (s' & burst & E & Hres).
+      eexists. split; [exact E|].
+      destruct Hres as [(Hne & -> & Hl' & Hg')|(-> & Hctop & -> & [(Hlast & -> & Hd)|(Hmore & -> & Hg')])].
+      + (* an old ACK *)
+        rewrite chan_puts_nil. split; [split; assumption|]. right. right. exists c, j. split; [exact Hg'|].
+        split; [|split; [|split; [exact Hl'|]]].
+        * intros Hd. cbn [p_r p_rs ch_q] in *. destruct (Hlive Hd) as [Heq|Hin]; [exfalso|exact Hin].
+          destruct (RG_done _ _ _ _ _ Hrg Hd) as (_ & Hnb & Hct & _). apply Hne. rewrite Heq. fold wl. f_equal. lia.
+        * unfold msrR, in_flight. cbn [p_sr p_rs ch_q ch_held app length]. lia.
+        * fold wl. fold top. intros [P1 P2]. unfold Pend in *. cbn [p_s p_r p_sr p_rs ch_q] in *. split; [exact P1|].
+          intros Heq. destruct (P2 Heq) as [[Hx|Hin]|Hr]; [exfalso; apply Hne; exact Hx|left; exact Hin|right; exact Hr].
+      + (* the last ACK of the transfer *)
+        rewrite chan_puts_nil. split; [split; assumption|]. left.
+        fold wl in Hctop. destruct (RG_top _ _ _ _ _ Hrg Hpos Hctop) as (_ & Hfin & _). destruct (Hfin Hlast) as [H1 H2].
+        unfold Final. cbn [p_s p_r]. split; [exact H1|]. split; [exact H2|exact Hd].
+      + (* the ACK of the window: the next window goes out *)
+        split.
+        { split; cbn [p_sr p_rs ch_n]; [|exact Hc2]. rewrite ch_n_puts. eapply clean_from_mono; [|exact Hc1]. cbn [ch_n]. lia. }
+        right. left. exists c. split; [fold wl in Hctop; lia|]. split; [exact Hg'|].
+        intros Hd. cbn [p_r] in Hd. fold wl in Hctop.
+        destruct (RG_top _ _ _ _ _ Hrg Hpos Hctop) as (_ & _ & Hrun). rewrite (Hrun Hmore) in Hd. discriminate.
+  Qed.
+
+  (** Everything in flight is consumed: the transfer is finished, or the sender has moved to the
+      next window, or the system has fallen silent. *)
+  Lemma drain : forall m p a r0 c j, (msrR p <= m)%nat -> nb <= 65535 -> G p a r0 c j -> CL p -> LiveOK p ->
+    exists fuel p', runF fuel p = p' /\ CL p' /\
+      (Final p'
+       \/ (exists a', a < a' /\ G p' a' 0 a' 0 /\ LiveOK p')
+       \/ (exists c' j', G p' a r0 c' j' /\ LiveOK p' /\ quiescent p' /\ wlen (p_s p') = wlen (p_s p) /\
+             (Pend p (a + wlen (p_s p)) c -> Pend p' (a + wlen (p_s p)) c'))).
+  Proof.
+    intros m. induction m as [|m IH]; intros p a r0 c j Hm Hn Hg Hcl Hlive.
+    all: destruct (quiescent_dec p) as [Hq|Hnq];
+      [exists O, p; split; [reflexivity|]; split; [exact Hcl|]; right; right; exists c, j;
+       split; [exact Hg|]; split; [exact Hlive|]; split; [exact Hq|]; split; [reflexivity|intros H; exact H]|].
+    all: destruct (clean_step p a r0 c j Hn Hg Hcl Hlive Hnq) as (p1 & E & Hcl1 & Hres).
+    all: destruct Hres as [Hfin|[Hadv|(c1 & j1 & Hg1 & Hlive1 & Hlt & Hwl1 & Hpend1)]];
+      try (exists 1%nat, p1; cbn [pair_run]; rewrite E; split; [reflexivity|]; split; [exact Hcl1|]; tauto).
+    - lia.
+    - destruct (IH p1 a r0 c1 j1 ltac:(lia) Hn Hg1 Hcl1 Hlive1) as (fuel & p' & Hrun & Hcl' & Hres').
+      exists (S fuel), p'. cbn [pair_run]. rewrite E. split; [exact Hrun|]. split; [exact Hcl'|].
+      destruct Hres' as [Hfin|[Hadv|(c' & j' & Hg' & Hlive' & Hq' & Hwl' & Hpend')]]; [tauto|tauto|].
+      right. right. exists c', j'. split; [exact Hg'|]. split; [exact Hlive'|]. split; [exact Hq'|].
+      split; [congruence|]. intros HP. rewrite Hwl1 in Hpend'. apply Hpend'. apply Hpend1. exact HP.
+  Qed.
+
+  (** Silence, the faults over: the sender's timer fires, and the window it sends again holds
+      everything the receiver still needs. *)
+  Lemma clean_tmo : forall p a r0 c j, G p a r0 c j -> CL p -> LiveOK p -> quiescent p -> r0 + 1 < max_retries ->
+    exists p', stepF p = Some p' /\ CL p' /\ G p' a (r0 + 1) c j /\ LiveOK p' /\ wlen (p_s p') = wlen (p_s p) /\
+      Pend p' (a + wlen (p_s p)) c.
+  Proof.
+    intros [s r [q1 h1 n1] [q2 h2 n2]] a r0 c j Hg [Hc1 Hc2] Hlive [Hq2 Hidle] Hr0.
+    cbn [p_s p_r p_sr p_rs ch_n ch_q] in *. subst q2.
+    pose proof Hg as (Hss & Hrg & Hsr & Hrs). cbn [p_s p_r p_sr p_rs] in Hss, Hrg, Hsr, Hrs.
+    pose proof (SS_len _ _ _ Hss) as (Ha & Hlen & Hpos). set (wl := wlen s) in *. set (top := a + wl) in *.
+    assert (Hp : r_phase r = RRun).
+    { destruct (RG_idle_SS _ _ _ _ _ Hrg) as [Hrun|Hd]; [unfold r_running in Hrun; destruct (r_phase r); [reflexivity|discriminate]|].
+      destruct (Hlive Hd). }
+    assert (Hq1 : q1 = []).
+    { destruct Hidle as [H|H]; [exact H|]. unfold r_running in H. cbn [p_r] in H. rewrite Hp in H. discriminate. }
+    subst q1.
+    destruct (G_tmo _ _ _ _ _ _ _ _ _ Hg Hidle) as [(_ & s' & E & Hl' & Hg')|(Hx & _)]; [|lia].
+    fold wl in E, Hg'. rewrite chan_puts_weaveF in E, Hg' by exact Hc1. cbn [app] in E, Hg'.
+    eexists. split; [exact E|]. split.
+    { split; cbn [p_sr p_rs ch_n]; [|exact Hc2]. eapply clean_from_mono; [|exact Hc1]. lia. }
+    split; [exact Hg'|]. split; [intros Hd; cbn [p_r] in Hd; congruence|]. split; [exact Hl'|].
+    unfold Pend. cbn [p_s p_r p_sr p_rs ch_q]. split.
+    - intros Hlt. fold top in Hlt.
+      assert (Hcj : c = a + j /\ j < wl).
+      { destruct Hrg as [[_ [?|(? & ? & ?)]]|(Hd & _)]; [assumption|unfold top in Hlt; lia|congruence]. }
+      destruct Hcj as [Hcj Hj]. apply subseq_weave.
+      replace (N.to_nat wl) with (N.to_nat j + N.to_nat (top - c))%nat by (unfold top; lia).
+      rewrite datasR_app. apply subseq_app_l.
+      replace (a + 1 + N.of_nat (N.to_nat j)) with (c + 1) by lia. apply datasR_sub.
+    - intros _. right. split; [unfold r_running; rewrite Hp; reflexivity|].
+      pose proof (datasR_nonnil (N.to_nat wl) (a + 1) ltac:(lia)) as Hnn.
+      destruct (datasR (a + 1) (N.to_nat wl)) as [|d0 ds0]; [contradiction|]. destruct h1; cbn [weave]; discriminate.
+  Qed.
+
+  (** From any state the system can be in, once the faults have stopped and the sender can still
+      afford one time-out: the transfer finishes or the sender reaches the next window. *)
+  Lemma recover_advance : forall p a r0 c j, nb <= 65535 -> G p a r0 c j -> CL p -> LiveOK p -> r0 + 1 < max_retries ->
+    exists fuel p', runF fuel p = p' /\ CL p' /\ (Final p' \/ exists a', a < a' /\ G p' a' 0 a' 0 /\ LiveOK p').
+  Proof.
+    intros p a r0 c j Hn Hg Hcl Hlive Hr0.
+    destruct (drain (msrR p) p a r0 c j (Nat.le_refl _) Hn Hg Hcl Hlive) as (f1 & p1 & Hrun1 & Hcl1 & Hres1).
+    destruct Hres1 as [Hfin|[Hadv|(c1 & j1 & Hg1 & Hlive1 & Hq1 & Hwl1 & _)]];
+      [exists f1, p1; tauto|exists f1, p1; tauto|].
+    destruct (clean_tmo p1 a r0 c1 j1 Hg1 Hcl1 Hlive1 Hq1 Hr0) as (p2 & E2 & Hcl2 & Hg2 & Hlive2 & Hwl2 & Hpend2).
+    destruct (drain (msrR p2) p2 a (r0 + 1) c1 j1 (Nat.le_refl _) Hn Hg2 Hcl2 Hlive2) as (f3 & p3 & Hrun3 & Hcl3 & Hres3).
+    assert (Hrun : runF (f1 + (1 + f3)) p = p3).
+    { rewrite run_add, Hrun1, run_add. cbn [pair_run]. rewrite E2. exact Hrun3. }
+    exists (f1 + (1 + f3))%nat, p3. split; [exact Hrun|]. split; [exact Hcl3|].
+    destruct Hres3 as [Hfin|[Hadv|(c3 & j3 & Hg3 & Hlive3 & Hq3 & Hwl3 & Hpend3)]]; [tauto|tauto|exfalso].
+    rewrite Hwl2 in Hpend3. specialize (Hpend3 Hpend2). clear Hpend2.
+    destruct Hg3 as (Hss3 & Hrg3 & _). pose proof (SS_len _ _ _ Hss3) as (_ & _ & Hpos3).
+    rewrite Hwl3, Hwl2 in Hrg3, Hpos3. set (top := a + wlen (p_s p1)) in *.
+    destruct Hq3 as [Hq3 Hidle3]. destruct Hpend3 as [P1 P2]. rewrite Hq3 in P2.
+    destruct Hrg3 as [[(hist & (_ & Hp3 & _)) [(Hc & Hj)|(Hc & _ & _)]]|(Hd & _ & _ & Hc & _)].
+    - (* inside the window: the blocks it needs were queued *)
+      assert (Hidle : ch_q (p_sr p3) = []).
+      { destruct Hidle3 as [H|H]; [exact H|]. unfold r_running in H. rewrite Hp3 in H. discriminate. }
+      rewrite Hidle in P1. specialize (P1 ltac:(unfold top; lia)).
+      destruct (N.to_nat (top - c3)) as [|m] eqn:Em; [unfold top in Em; lia|]. cbn [CosimLive.datas] in P1. inversion P1.
+    - destruct (P2 Hc) as [[]|[Hrn Hne]]. destruct Hidle3 as [H|H]; [contradiction|congruence].
+    - destruct (P2 Hc) as [[]|[Hrn _]]. unfold r_running in Hrn. rewrite Hd in Hrn. discriminate.
+  Qed.
+
+  Lemma recover_complete : forall k p a r0 c j, nb - a <= N.of_nat k -> nb <= 65535 ->
+    G p a r0 c j -> CL p -> LiveOK p -> r0 + 1 < max_retries ->
+    exists fuel, Final (runF fuel p).
+  Proof.
+    intros k. induction k as [|k IH]; intros p a r0 c j Hk Hn Hg Hcl Hlive Hr0;
+      pose proof (SS_len _ _ _ (proj1 Hg)) as (Ha & _ & _); [lia|].
+    destruct (recover_advance p a r0 c j Hn Hg Hcl Hlive Hr0) as (f1 & p1 & Hrun1 & Hcl1 & [Hfin|(a' & Hlt & Hg1 & Hlive1)]).
+    - exists f1. rewrite Hrun1. exact Hfin.
+    - destruct (IH p1 a' 0 a' 0 ltac:(lia) Hn Hg1 Hcl1 Hlive1 one_retry) as (f2 & Hfin).
+      exists (f1 + f2)%nat. rewrite run_add, Hrun1. exact Hfin.
+  Qed.
+
+  (** Every fault schedule, any number of steps into the run: if from here on nothing more is
+      disturbed, neither side has ended and the sender can afford one more time-out, the
+      transfer completes on both sides with exactly the file. *)
+  Lemma recovers_from_run : forall fuel0, nb <= 65535 ->
+    let p := runF fuel0 (pair_init sc rc f_sr F) in
+    CL p -> s_phase (p_s p) = SInWindow -> s_retry (p_s p) + 1 < max_retries -> r_phase (p_r p) = RRun ->
+    exists fuel, Final (runF fuel p).
+  Proof.
+    intros fuel0 Hn p Hcl Hs Hr Hrr.
+    destruct (G_run fuel0 (pair_init sc rc f_sr F) Hn (or_introl G_init)) as [(a & r0 & c & j & Hg)|Hl].
+    - fold p in Hg. pose proof (proj1 Hg) as Hss. destruct Hss as (_ & _ & _ & _ & _ & Hr0).
+      apply (recover_complete (N.to_nat nb) p a r0 c j); try assumption; try lia.
+      intros Hd. congruence.
+    - fold p in Hl. unfold sender_left, s_running in Hl. rewrite Hs in Hl. discriminate.
+  Qed.
+
+  Lemma any_step : forall p a r0 c j, nb <= 65535 -> G p a r0 c j ->
+    exists p', stepF p = Some p' /\
+      (ended p' \/ exists a' r0' c' j', G p' a' r0' c' j' /\ lexdecR p a r0 p' a' r0').
+  Proof.
+    intros [s r [q1 h1 n1] [q2 h2 n2]] a r0 c j Hn Hg.
+    pose proof Hg as (Hss & Hrg & Hsr & Hrs). cbn [p_s p_r p_sr p_rs] in Hss, Hrg, Hsr, Hrs.
+    pose proof (SS_len _ _ _ Hss) as (Ha & Hlen & Hpos).
+    assert (Hcase : (exists d q, q1 = d :: q /\ r_phase r = RRun) \/ recv_idle r (mk_chan q1 h1 n1)).
+    { destruct q1 as [|d q1]; [right; left; reflexivity|].
+      destruct (r_phase r) eqn:Hp; [left; eauto|right; right; unfold r_running; rewrite Hp; reflexivity]. }
+    destruct Hcase as [(d & q & -> & Hp)|Hidle].
+    - (* the receiver takes a datagram *)
+      destruct (G_recv _ _ _ _ _ _ _ _ _ _ _ Hn Hg Hp) as (r' & acks & c' & j' & E & Hg' & Hdesc).
+      eexists. split; [exact E|]. right. exists a, r0, c', j'. split; [exact Hg'|].
+      assert (Hacks : (length acks <= rrn)%nat).
+      { destruct Hdesc as [(_ & _ & _ & [(_ & -> & _)|(_ & -> & _)])|(_ & _ & _ & _ & ->)]; rewrite ?repeat_length; cbn [length]; try lia.
+        destruct (j =? 0); rewrite ?repeat_length; cbn [length]; lia. }
+      unfold lexdecR, CosimLive.pend, msrR. cbn [p_sr p_rs ch_n]. rewrite ch_n_puts. cbn [ch_n].
+      destruct (pending_cases f_rs n2 (n2 + lenN acks) ltac:(lia)) as [Hcl|Hhit]; [right|left; lia].
+      split; [pose proof (pending_mono f_rs n2 (n2 + lenN acks) ltac:(lia)); lia|].
+      right. split; [reflexivity|]. right. split; [reflexivity|].
+      rewrite chan_puts_weave_b by exact Hcl. rewrite in_flight_weave_length.
+      unfold in_flight. cbn [ch_q ch_held app length]. rewrite Nat.mul_succ_r. lia.
+    - destruct q2 as [|d q2].
+      + (* silence: the sender's timer fires *)
+        destruct (G_tmo _ _ _ _ _ _ _ _ _ Hg Hidle) as [(Hr0 & s' & E & Hl' & Hg')|(_ & s' & E & Hd)].
+        * eexists. split; [exact E|]. right. exists a, (r0 + 1), c, j. split; [exact Hg'|].
+          unfold lexdecR, CosimLive.pend. cbn [p_sr p_rs ch_n]. rewrite ch_n_puts. cbn [ch_n]. right.
+          split; [pose proof (pending_mono f_sr n1 (n1 + lenN (datasR (a + 1) (N.to_nat (wlen s)))) ltac:(lia)); lia|].
+          right. split; [reflexivity|]. left. lia.
+        * eexists. split; [exact E|]. left. right. exact Hd.
+      + (* the sender takes a datagram *)
+        destruct (G_send _ _ _ _ _ _ _ _ _ _ _ Hn Hg Hidle) as (s' & burst & E & Hres).
+        eexists. split; [exact E|].
+        destruct Hres as [(Hne & -> & Hl' & Hg')|(-> & Hctop & -> & [(Hlast & -> & Hd)|(Hmore & -> & Hg')])].
+        * rewrite chan_puts_nil. right. exists a, r0, c, j. split; [exact Hg'|].
+          unfold lexdecR, CosimLive.pend, msrR, in_flight. cbn [p_sr p_rs ch_n ch_q ch_held app length]. right. split; [lia|].
+          right. split; [reflexivity|]. right. split; [reflexivity|]. lia.
+        * left. left. destruct (RG_top _ _ _ _ _ Hrg Hpos Hctop) as (_ & Hfin & _). destruct (Hfin Hlast) as [H1 H2].
+          unfold Final. cbn [p_s p_r]. split; [exact H1|]. split; [exact H2|exact Hd].
+        * right. exists c, 0, c, 0. split; [exact Hg'|].
+          unfold lexdecR, CosimLive.pend. cbn [p_sr p_rs ch_n]. rewrite ch_n_puts. cbn [ch_n]. right.
+          split; [pose proof (pending_mono f_sr n1 (n1 + lenN (datasR (c + 1) (N.to_nat (wlen s')))) ltac:(lia)); lia|].
+          left. lia.
+  Qed.
+
+  Lemma terminates_from : forall pf k t m p a r0 c j, nb <= 65535 -> G p a r0 c j ->
+    (pend p <= pf)%nat -> nb - a <= N.of_nat k -> max_retries - r0 <= N.of_nat t -> (msrR p <= m)%nat ->
+    exists fuel, ended (runF fuel p).
+  Proof.
+    intros pf. induction pf as [pf IHpf] using lt_wf_ind.
+    intros k. induction k as [k IHk] using lt_wf_ind.
+    intros t. induction t as [t IHt] using lt_wf_ind.
+    intros m. induction m as [m IHm] using lt_wf_ind.
+    intros p a r0 c j Hn Hg Hpf Hk Ht Hm.
+    destruct (any_step p a r0 c j Hn Hg) as (p' & E & [He|(a' & r0' & c' & j' & Hg' & Hdec)]).
+    - exists 1%nat. cbn [pair_run]. rewrite E. exact He.
+    - assert (Hrec : exists fuel, ended (runF fuel p')).
+      { pose proof (SS_len _ _ _ (proj1 Hg')) as (Ha' & _ & _). pose proof (SS_retry _ _ _ (proj1 Hg')) as Hr'.
+        destruct Hdec as [H1|(H0 & [H2|(-> & [H3|(-> & H4)])])].
+        - apply (IHpf (pend p') ltac:(lia) (N.to_nat (nb - a')) (N.to_nat (max_retries - r0')) (msrR p') p' a' r0' c' j'); try assumption; lia.
+        - apply (IHk (N.to_nat (nb - a')) ltac:(lia) (N.to_nat (max_retries - r0')) (msrR p') p' a' r0' c' j'); try assumption; lia.
+        - apply (IHt (N.to_nat (max_retries - r0')) ltac:(lia) (msrR p') p' a r0' c' j'); try assumption; lia.
+        - apply (IHm (msrR p') ltac:(lia) p' a r0 c' j'); try assumption; lia. }
+      destruct Hrec as (fuel & Hfin). exists (S fuel). cbn [pair_run]. rewrite E. exact Hfin.
+  Qed.
+
+  End AnyDup.
+
+  (** C04 / C16, the general clause in duplicate-packets mode: a sender that repeats every DATA
+      [s_rep] times, a receiver that repeats every ACK [r_rep] times, channels that lose, repeat and
+      reorder at will - every schedule ends with the transfer completed on both sides and the file
+      exact, or with the sender at the retry limit. *)
+  Theorem cosim_terminates_dup : forall f_sr f_rs, nb <= 65535 ->
+    exists fuel,
+      let p := pair_run sc rc f_sr f_rs fuel (pair_init sc rc f_sr F) in
+      (r_phase (p_r p) = RDone OutOk /\ written_bytes (w_file (r_w (p_r p))) = F /\ s_phase (p_s p) = SDone OutOk)
+      \/ s_phase (p_s p) = SDone OutTimeout.
+  Proof.
+    intros f_sr f_rs Hn. destruct (G_init f_sr) as (a & r0 & c & j & Hg).
+    destruct (terminates_from f_sr f_rs _ (N.to_nat (nb - a)) (N.to_nat (max_retries - r0)) _ _ a r0 c j Hn Hg
+                (Nat.le_refl _) ltac:(lia) ltac:(lia) (Nat.le_refl _)) as (fuel & He).
+    exists fuel. exact He.
+  Qed.
+
+  (** ... and from any state reachable under any faults, once nothing more is disturbed and the sender
+      can afford one more time-out, the transfer completes. *)
+  Theorem cosim_recovers_dup : forall f_sr f_rs fuel0, nb <= 65535 ->
+    let p := pair_run sc rc f_sr f_rs fuel0 (pair_init sc rc f_sr F) in
+    clean_from f_sr (ch_n (p_sr p)) -> clean_from f_rs (ch_n (p_rs p)) ->
+    s_phase (p_s p) = SInWindow -> s_retry (p_s p) + 1 < max_retries -> r_phase (p_r p) = RRun ->
+    exists fuel,
+      let p' := pair_run sc rc f_sr f_rs fuel p in
+      r_phase (p_r p') = RDone OutOk /\ written_bytes (w_file (r_w (p_r p'))) = F /\ s_phase (p_s p') = SDone OutOk.
+  Proof.
+    intros f_sr f_rs fuel0 Hn p Hc1 Hc2 Hs Hr Hrr.
+    destruct (recovers_from_run f_sr f_rs fuel0 Hn (conj Hc1 Hc2) Hs Hr Hrr) as (fuel & Hfin).
+    exists fuel. exact Hfin.
+  Qed.
 End Dup.
+
+(** The general clause for every configuration the command line can produce: block size, window
+    size, both repeat counts (duplicate-packets N gives N + 1), every file of at most 65535 blocks,
+    EVERY fault schedule on both channels. *)
+Theorem any_schedule_dup_statement_holds :
+  forall (blk ws srep rrep : N) (F : bytes) (f1 f2 : list (N * fault)),
+  0 < blk -> 1 <= ws <= 65535 -> 1 <= srep -> 1 <= rrep -> nblk blk F <= 65535 ->
+  exists fuel,
+    let sc := mk_scfg blk ws 1000000000 srep false [] in
+    let rc := mk_rcfg blk ws 1000000000 rrep true [] in
+    let p := pair_run sc rc f1 f2 fuel (pair_init sc rc f1 F) in
+    (r_phase (p_r p) = RDone OutOk /\ written_bytes (w_file (r_w (p_r p))) = F /\ s_phase (p_s p) = SDone OutOk)
+    \/ s_phase (p_s p) = SDone OutTimeout.
+Proof.
+  intros blk ws srep rrep F f1 f2 Hb Hw Hs Hr Hn.
+  set (sc := mk_scfg blk ws 1000000000 srep false []). set (rc := mk_rcfg blk ws 1000000000 rrep true []).
+  assert (Hwf : wf_params (s_blk sc) (s_ws sc)) by (split; assumption).
+  exact (cosim_terminates_dup sc rc F Hwf eq_refl eq_refl eq_refl eq_refl eq_refl Hs Hr eq_refl f1 f2 Hn).
+Qed.
+
+Theorem quiet_after_faults_dup_statement_holds :
+  forall (blk ws srep rrep : N) (F : bytes) (f1 f2 : list (N * fault)) (fuel0 : nat),
+  0 < blk -> 1 <= ws <= 65535 -> 1 <= srep -> 1 <= rrep -> nblk blk F <= 65535 ->
+  let sc := mk_scfg blk ws 1000000000 srep false [] in
+  let rc := mk_rcfg blk ws 1000000000 rrep true [] in
+  let p := pair_run sc rc f1 f2 fuel0 (pair_init sc rc f1 F) in
+  clean_from f1 (ch_n (p_sr p)) -> clean_from f2 (ch_n (p_rs p)) ->
+  s_phase (p_s p) = SInWindow -> s_retry (p_s p) + 1 < max_retries -> r_phase (p_r p) = RRun ->
+  exists fuel,
+    let p' := pair_run sc rc f1 f2 fuel p in
+    r_phase (p_r p') = RDone OutOk /\ written_bytes (w_file (r_w (p_r p'))) = F /\ s_phase (p_s p') = SDone OutOk.
+Proof.
+  intros blk ws srep rrep F f1 f2 fuel0 Hb Hw Hs Hr Hn sc rc.
+  assert (Hwf : wf_params (s_blk sc) (s_ws sc)) by (split; assumption).
+  exact (cosim_recovers_dup sc rc F Hwf eq_refl eq_refl eq_refl eq_refl eq_refl Hs Hr eq_refl f1 f2 fuel0 Hn).
+Qed.
+
+(** Non-vacuity: duplicate-packets 2 on the sending side, 1 on the receiving side, faults of every
+    kind on both channels, two time-outs on the count, the receiver one block into the file. *)
+Example quiet_after_faults_dup_premises :
+  let sc := mk_scfg 4 3 1000000000 3 false [] in
+  let rc := mk_rcfg 4 3 1000000000 2 true [] in
+  let F := map N.of_nat (seq 1 30) in
+  let f1 := [(0, NfDrop); (1, NfDrop); (2, NfDrop); (4, NfHold); (7, NfDup); (9, NfDrop); (10, NfDrop); (11, NfDrop); (12, NfDrop)] in
+  let f2 := [(0, NfDrop); (1, NfDup); (3, NfHold)] in
+  let p := pair_run sc rc f1 f2 40 (pair_init sc rc f1 F) in
+  clean_from f1 (ch_n (p_sr p)) /\ clean_from f2 (ch_n (p_rs p)) /\
+  s_phase (p_s p) = SInWindow /\ s_retry (p_s p) + 1 < max_retries /\ r_phase (p_r p) = RRun.
+Proof.
+  cbv zeta. split; [apply clean_from_bound; vm_compute; reflexivity|].
+  split; [apply clean_from_bound; vm_compute; reflexivity|]. vm_compute. repeat split; reflexivity.
+Qed.
+
